@@ -122,7 +122,13 @@ def prop_modules(prop):
     """proof modules of a property: Props/<prop>.lean plus companion files Props/<prop><Suffix>.lean"""
     d = os.path.join(LEAN, "Magog", "Props")
     mods = sorted(fn[:-5] for fn in os.listdir(d) if fn.endswith(".lean") and fn.startswith(prop) and (fn == prop + ".lean" or fn[len(prop)].isalpha()))
-    return [prop] + [m for m in mods if m != prop] if prop in mods else mods
+    mods = [prop] + [m for m in mods if m != prop] if prop in mods else mods
+    # the capstone module (statements in the terms of the rules of chess) holds theorems of several properties,
+    # named `<prop>_...`; it is audited with each of them
+    cap = os.path.join(d, "Capstone.lean")
+    if os.path.exists(cap) and re.search(r"^theorem\s+%s_" % re.escape(prop), strip_comments(open(cap).read()), flags=re.M):
+        mods.append("Capstone")
+    return mods
 
 
 def audit_proofs(ctx):
@@ -136,6 +142,8 @@ def audit_proofs(ctx):
         path = os.path.join(LEAN, "Magog", "Props", f"{m}.lean")
         src = open(path).read() if os.path.exists(path) else ""
         for n in re.findall(r"^theorem\s+([A-Za-z0-9_.']+)", strip_comments(src), flags=re.M):
+            if m == "Capstone" and not n.startswith(prop + "_"):
+                continue
             names.append((m, n))
     ctx.obligations = len(names)
     ctx.theorems = [n if m == prop else f"{m}.{n}" for m, n in names]
@@ -264,6 +272,42 @@ def check_C01(ctx):
         if len(ms) != len(set(ms)):
             ctx.violation("gen-dup:" + f, {"kind": "input", "fen": f, "what": "engine lists a move twice", "engine": go[i]})
     report_core(ctx, "co_gen", pool, ops, go, model, spec, co, pr, "legal move set / count / in-check")
+    reached_positions_check(ctx, "C01")
+
+
+def reached_positions_check(ctx, prop):
+    """positions REACHED by engine-made moves (state carried by the engine, not re-loaded from a FEN): every 2-ply
+    sequence from the targeted families (corner captures and promotions with castling rights, en passant, castling)
+    and sampled longer playouts; the engine's move list / tactical list / counters at the end vs the rules"""
+    rng = ctx.rng
+    targeted = gens.legal_filter(list(dict.fromkeys(gens.TARGETED)))
+    tsub = targeted if not ctx.quick else rng.sample(targeted, min(len(targeted), 30))
+    seqs = gens.all_sequences(tsub, 2)
+    cap = ctx.size(6000, 120000)
+    if len(seqs) > cap:
+        seqs = rng.sample(seqs, cap)
+    pl = gens.playouts(rng, [START_FEN, KIWI_FEN] + targeted[:20], ctx.size(40, 1500), 60)
+    for fen, steps in pl:
+        mvs = [m for m, _ in steps]
+        for k in range(4, len(mvs) + 1, 7):
+            seqs.append((fen, mvs[:k]))
+    ops = ["gamegen\t" + f + "\t" + "\t".join(m) for f, m in seqs]
+    sops = ["sgamegen\t" + f + "\t" + "\t".join(m) for f, m in seqs]
+    go = run_batch(HDRV, ops)
+    spec = run_batch(MDRV, sops)
+    ctx.co["co_gen_reached"] = len(seqs)
+    for (f, m), g, sp in zip(seqs, go, spec):
+        ctx.case("reached|" + f + "|" + " ".join(m))
+        ctx.bump("reached_positions")
+        if not sp or not sp.startswith("ok") or "nomove" in sp:
+            continue
+        dg, ds = kv(g), kv(sp)
+        keys = ("moves", "cnt", "chk") if prop == "C01" else ("tact", "tcnt", "cnt")
+        gm = (g or "").startswith("ok") and "nomove" not in (g or "")
+        if not gm or any(strip_ep(dg.get(k, "")) != ds.get(k, "") for k in keys):
+            ctx.violation(f"reached:{f}:{' '.join(m)}", {"kind": "history", "lines": [f"position {f} moves {' '.join(m)}", "perft 1"],
+                          "what": "after playing these moves the engine's move list / counters differ from the rules of chess",
+                          "engine": (g or "")[:400], "rules": sp[:400]})
 
 
 def report_core(ctx, coname, pool, ops, go, model, spec, co, pr, what):
@@ -659,6 +703,16 @@ def check_C15(ctx):
     gom = run_batch(HDRV, mops)
     model = run_batch(MDRV, ops)
     ctx.co["co_eval"] = len(ops)
+    # the Lean `mirror` (subject of the C15 theorems) against the orchestrator's independent FEN mirror
+    mm = run_batch(MDRV, [f"mirror\t{f}" for f in pool])
+    ms = run_batch(MDRV, [f"snap\t{gens.mirror_fen(f)}" for f in pool])
+    ctx.co["co_mirror_def"] = len(pool)
+    for f, a, b in zip(pool, mm, ms):
+        ka, kb = kv(a), kv(b)
+        # the ply counter is not mirrored (the FEN mirror keeps the move number, the turn changes): compare the rest
+        if not a or not b or {k: v for k, v in ka.items() if k != "ply"} != {k: v for k, v in kb.items() if k != "ply"}:
+            ctx.violation("mirror-def:" + f, {"kind": "input", "fen": f, "what": "Lean `Model.mirror` differs from the independent colour-flip of the FEN", "model_mirror": (a or "")[:300], "fen_mirror": (b or "")[:300]}, found=False)
+            break
     ctx.co["co_eval_mirror"] = len(ops)
     co = []
     for i, f in enumerate(pool):
@@ -2878,8 +2932,58 @@ def run_exit(item):
         s.kill()
 
 
+def run_exit_burst(item):
+    """`quit` / end of input arriving with NO gap after `go` - everything in one write, or stdin a regular file whose
+    end follows `go` directly - so that they are handled before the search thread has run its first statements;
+    optionally on a single OS thread (GOMAXPROCS=1), which makes that interleaving certain"""
+    fen, go, mode, single = item
+    env = dict(os.environ)
+    if single:
+        env["GOMAXPROCS"] = "1"
+    text = f"position {fen}\n{go}\n" + ("quit\n" if mode == "quit" else "")
+    path = os.path.join(BUILD, f"burst_{os.getpid()}_{abs(hash(item)) % 10**9}.txt")
+    t0 = time.time()
+    try:
+        if mode == "eof-file":
+            with open(path, "w") as f:
+                f.write(text)
+            p = subprocess.Popen([MAGOG], stdin=open(path, "rb"), stdout=subprocess.DEVNULL, stderr=subprocess.DEVNULL, env=env)
+        else:
+            p = subprocess.Popen([MAGOG], stdin=subprocess.PIPE, stdout=subprocess.DEVNULL, stderr=subprocess.DEVNULL, env=env)
+            p.stdin.write(text.encode())
+            p.stdin.flush()
+            if mode == "eof":
+                p.stdin.close()
+        try:
+            rc = p.wait(timeout=2.5)
+        except subprocess.TimeoutExpired:
+            rc = None
+        return rc, time.time() - t0
+    finally:
+        try:
+            p.kill()
+            p.wait(timeout=5)
+        except Exception:
+            pass
+        if os.path.exists(path):
+            os.remove(path)
+
+
 def check_C19(ctx):
     rng = ctx.rng
+    burst = [(f, g, m, single) for f in (START_FEN, KIWI_FEN) for g in ("go infinite", "go", "go depth 40", "go wtime 600000 btime 600000")
+             for m in ("quit", "eof", "eof-file") for single in (False, True)]
+    if ctx.quick:
+        burst = rng.sample(burst, 20)
+    bres = parallel_map(run_exit_burst, burst, workers=6)
+    ctx.co["co_exit_burst"] = len(burst)
+    for (f, g, m, single), r in zip(burst, bres):
+        rc, el = r
+        ctx.case(f"burst|{f}|{g}|{m}|{single}")
+        ctx.bump(f"burst:{m}" + (":gomaxprocs1" if single else ""))
+        if rc is None:
+            ctx.violation(f"exit-burst:{g}:{m}:{single}", {"kind": "history", "lines": [f"position {f}", g, "quit" if m == "quit" else "<end of input immediately after go>"],
+                                                          "env": "GOMAXPROCS=1" if single else "", "what": f"process did not terminate within 2.5 s after {'quit' if m == 'quit' else 'end of input'} sent without any gap after `{g}`"})
     prefixes = [[], ["uci"], ["isready"], ["position startpos"], ["position startpos moves e2e4", "perft 2"], ["xyzzy"], ["position startpos", "go depth 1"], ["setoption name currmoveLogInterval value 100"],
                 ["position " + KIWI_FEN, "eval"], [""]]
     items = []
